@@ -198,6 +198,9 @@ package twig
 // the retry with the unresolved name after a relative-name miss is a documented tolerance
 //@ func (*ExtendsNode).Render props: C17 C10
 //@   flag errretry (*Engine).Load
+// (only a name that was not found is looked for again as it was written: any other failure of the
+// first attempt - a syntax error in the template that is there - is the error of the tag)
+//@   flag errretrywhen errIs(pendErr, ErrTemplateNotFound)
 //@   flag rely_tree yes
 //@   atcall (*RenderContext).EvaluateExpression a0 == ctx && a1 == n.parent
 //@   atcall (*Engine).Load a0 == ctx.engine && templateName == fn_ToString_0(ctx, evalRes(old(tr), n.parent, ctx)) && (a1 == templateName || a1 == resolvedName)
@@ -210,6 +213,9 @@ package twig
 // template defined (C12: a macro is the same macro through `import ... as m`)
 //@ func (*ImportNode).Render props: C17
 //@   flag errretry (*Engine).Load
+// (only a name that was not found is looked for again as it was written: any other failure of the
+// first attempt - a syntax error in the template that is there - is the error of the tag)
+//@   flag errretrywhen errIs(pendErr, ErrTemplateNotFound)
 //@   loop 1 step[C12] has(macros, name) && macros[name] == macro
 //@   atcall[C12] (*RenderContext).SetVariable a0 == ctx && a1 == n.module && typeIs(a2, "map[string]interface{}") && unboxAs(a2, "map[string]interface{}") == macros
 //@   ensures[C12] ret == nil ==> has(ctx.context, n.module)
@@ -217,6 +223,9 @@ package twig
 //@   ensures[C12] ret == nil ==> isFresh(unboxAs(ctx.context[n.module], "map[string]interface{}"))
 //@ func (*FromImportNode).Render props: C17
 //@   flag errretry (*Engine).Load
+// (only a name that was not found is looked for again as it was written: any other failure of the
+// first attempt - a syntax error in the template that is there - is the error of the tag)
+//@   flag errretrywhen errIs(pendErr, ErrTemplateNotFound)
 // `ignore missing` turns a template that does not exist into empty output; every other failure
 // is reported
 //@ func (*IncludeNode).Render props: C17 C11 C10
@@ -229,6 +238,9 @@ package twig
 // of with-variables does not write - so their values cannot depend on its order)
 //@   atcall[C11,C17,C03,C08] (*RenderContext).EvaluateExpression a0 == ctx
 //@   flag errretry (*Engine).Load
+// (only a name that was not found is looked for again as it was written: any other failure of the
+// first attempt - a syntax error in the template that is there - is the error of the tag)
+//@   flag errretrywhen errIs(pendErr, ErrTemplateNotFound)
 //@   flag errtolerate n.ignoreMissing && errIs(pendErr, ErrTemplateNotFound) && ret == nil
 // Load: a loader that does not have the name is skipped (the first that has it wins) and a
 // failing timestamp query only forces a reload; when no loader has the name every loader's own
@@ -788,6 +800,10 @@ package twig
 //@ func (*FileSystemLoader).Load props: C15
 //@   loop 1 invariant[C15] 0 - 1 <= rangeindex && rangeindex < len(l.paths) && nstat >= old(nstat) + rangeindex + 1
 //@   ensures[C15] ret1 != nil ==> laststat || nstat >= old(nstat) + len(l.paths)
+// a source it answers with was read from the file in this call (C15: with caching disabled every call
+// re-reads the loaders; a loader that remembers contents serves a file that was replaced without a
+// change of size and time)
+//@   ensures[C15] ret1 == nil ==> nrd > old(nrd)
 // loader events are named, not interpreted (abstraction)
 //@ iface Loader.Load
 //@   assumed
@@ -813,6 +829,10 @@ package twig
 //@   ensures[C15] err == nil ==> (isHit() && ret0 == cached() && tr == old(tr)) || (exists k int :: 0 <= k && k < len(e.loaders) && missUpTo(old(tr), LS(), k, name) && loadErr(loadsUpTo(old(tr), LS(), k, name), e.loaders[k], name) == nil && tr == loadsUpTo(old(tr), LS(), k + 1, name) && ret0.source == loadSrc(loadsUpTo(old(tr), LS(), k, name), e.loaders[k], name) && ret0.name == name && ret0.loader == e.loaders[k])
 //@   ensures[C15] err == nil && !(isHit() && ret0 == cached()) && e.environment.cache ==> has(e.templates, name) && e.templates[name] == ret0
 //@   ensures[C15] !e.environment.cache || err != nil ==> tplSame()
+// the time remembered with a freshly loaded template is the time its loader reported for it, as it was
+// reported: the next call compares the loader's answer with it, and an unchanged template (the same
+// answer) is then not read again
+//@   ensures[C15] err == nil && !(isHit() && ret0 == cached()) && implements(ret0.loader, "TimestampAwareLoader") ==> ret0.lastModified == mtimeOf(ret0.loader, name)
 //@   ensures[C15] isHit() && !e.autoReload ==> err == nil && ret0 == cached() && tr == old(tr)
 //@   ensures[C15] isHit() && e.autoReload && cached().loader == nil ==> err == nil && ret0 == cached() && tr == old(tr)
 //@   ensures[C15] isHit() && e.autoReload && cached().loader != nil && !tsAware() ==> err == nil && ret0 == cached() && tr == old(tr)
